@@ -165,6 +165,17 @@ structure RTSpec (d : DMRS) (m2 : MRS) (topLbl : Option Var) (sc : List (Var × 
       iv.vid = iv'.vid → n = n'
   ivQInj : ∀ q ∈ quantStarts d, ∀ q' ∈ quantStarts d, ∀ iv iv', dlookup q idToIv = some iv →
     dlookup q' idToIv = some iv' → iv.vid = iv'.vid → q = q'
+  /-- the defining equations of the witnesses (so that further facts can be derived from the
+  loops of `from_dmrs`) -/
+  defs : ∃ (chosen : List Var) (qmap : List (Int × Int)) (st : BuildSt),
+    scopesCh chosen d = .ok (topLbl, sc) ∧ nsArgsD d = .ok ns ∧ scArgsD d sc = .ok scs ∧
+    qmapD d = .ok qmap ∧
+    idToIv = (buildIvs d qmap (vfReserve (topNew d).2 sc)).1 ∧
+    lo = (buildIvs d qmap (vfReserve (topNew d).2 sc)).2.vid ∧
+    d.nodes.foldlM (buildRel d sc idToIv ns scs)
+      { vf := (buildIvs d qmap (vfReserve (topNew d).2 sc)).2,
+        hcons := hcTop (topNew d).1 topLbl, rels := [] } = .ok st ∧
+    hi = st.vf.vid ∧ m2.rels = st.rels ∧ m2.hcons = st.hcons
   ivQ : ∀ q ∈ quantStarts d, ∀ iv, dlookup q idToIv = some iv →
     ∃ n ∈ d.nodes, n.id ∉ quantStarts d ∧ dlookup n.id idToIv = some iv ∧
       ∃ l ∈ d.links, l.role = RESTRICTION_ROLE ∧ l.start = q ∧ l.stop = n.id
@@ -230,7 +241,8 @@ theorem fromDmrs_spec (chosen : List Var) (d : DMRS) (hnd : d.ids.Nodup) (m2 : M
     { scopes := S, nsMem := ?_, nsComplete := nsArgsD_complete d ns h2, scMem := ?_,
       scComplete := scArgsD_complete d sc scs h3, len := by simp [b1, b3], pos := ?_, top := rfl,
       topVar := htopvar, hcons := ⟨news, b2, ?_, b9⟩, index := h5, ivNonQ := ?_, ivInj := i7,
-      ivQInj := ?_, ivQ := ?_ }⟩
+      ivQInj := ?_, ivQ := ?_,
+      defs := ⟨chosen, qmap, st, h1, h2, h3, h4, rfl, rfl, h6, rfl, rfl, rfl⟩ }⟩
   · intro x hx
     obtain ⟨l, hl, he, hn, _⟩ := nsArgsD_mem d ns h2 x hx
     exact ⟨l, hl, he, hn⟩
